@@ -869,7 +869,7 @@ def run(ctx):
         nt = "error" not in o and o["n"] > 0
         ctx.case(("ll", case["extent"], case["shape"], case["lons"][0][:3], len(case["lons"])), nontrivial=nt,
                  sample={"ll2cr_area": case["cls"], "shape": case["shape"], "extent": [U(s) for s in case["extent"]], "points": len(case["lons"]) * len(case["lons"][0]),
-                         "in_grid": o.get("n")})
+                         "in_grid": o.get("n"), "lonlat_layout": case.get("geo_layout", "c"), "malformed": bool(case.get("malformed"))})
         ctx.count("ll2cr:" + case["cls"].split("_")[0])
         if case.get("flipped"):
             ctx.count("ll2cr:flipped")
@@ -892,7 +892,9 @@ def run(ctx):
         multi = bool(tab) and max(len(v) for v in tab.values()) >= 2
         ctx.case(("fn", case["cols"][0][:2], case["data"][0][:2], case["grid"], case["rps"], case["mwm"], repr(case["params"])), nontrivial=multi,
                  sample={"fornav_swath": [len(case["cols"]), len(case["cols"][0])], "grid": case["grid"], "dtype": case["dtype"], "mwm": case["mwm"],
-                         "rps": case["rps"], "params": case["params"], "cells_touched": len(tab or {})})
+                         "rps": case["rps"], "params": case["params"], "cells_touched": len(tab or {}), "data": case["kind"],
+                         "data_layout": case.get("layout", "c"), "colrow_layout": case.get("geo_layout", "c"), "masked_input": bool(case.get("masked")),
+                         "fill": U(case["fill"]) if U(case["fill"]) == U(case["fill"]) else "nan"})
         ctx.count("fornav:" + ("mwm" if case["mwm"] else "avg") + ":" + case["dtype"])
         ctx.count("fornav:data_" + case["kind"])
         if case["has_fill"]:
@@ -921,7 +923,8 @@ def run(ctx):
         ctx.case(("sc", case["extent"], case["shape"], case["lons"][0][:2], case["in_rows"], repr(case["out_chunks"]), case["mwm"]), nontrivial=multi,
                  sample={"scene_area": case["cls"], "grid": case["grid"], "swath": [len(case["lons"]), len(case["lons"][0])], "rps": case["rps"],
                          "in_rows": case["in_rows"], "out_chunks": case["out_chunks"], "mwm": case["mwm"], "dtype": case["dtype"],
-                         "placeholders": o.get("placeholders")})
+                         "placeholders": o.get("placeholders"), "persist": bool(case.get("persist")), "history_calls": len(case.get("history") or []),
+                         "legacy": bool(case.get("legacy")), "data_layout": case.get("layout", "c"), "lonlat_layout": case.get("geo_layout", "c")})
         ctx.count("scene:" + ("mwm" if case["mwm"] else "avg") + ":" + case["dtype"])
         ctx.count("scene:in_chunks=%d" % math.ceil(len(case["lons"]) / case["in_rows"]))
         ctx.count("scene:out_blocks=%d" % (len(case["out_chunks"][0]) * len(case["out_chunks"][1])))
